@@ -31,6 +31,14 @@ CLAIMED = {
          "TLA+ cursor machine + TLC; op-level trace validation; observed panics/crashes/allocation as constrained event fields"),
  "C11": ("5.C11", "MC_Transport: read_exact over nondeterministic pieces with a fault offset never over-reads and is equivalent to a stream truncated at the fault. Real code: scripted std::io / embedded-io writers and readers (piece schedules, fault or Ok(0) at every offset), 1..3 messages per stream, scratch 0..need+1; per-message result, reader position (= message length exactly), scratch remainder and borrowed offsets validated by TLC against Wire!Dec on the readable part plus the scratch accounting.",
          "TLA+ transport environment + TLC; recorded transport behaviours validated against Dec + scratch accounting"),
+ "C14": ("5.C14", "SchemaModel!Conforms relates a schema node to a recorded serde call tree (kinds; field names and order; variant index, name and data form; arity; element/key/value conformance; the Schema kind via the meta-schema). For every built-in Schema implementor and a derived corpus, the borrowed SCHEMA (walked independently) must conform to the call tree of each generated value, and Wire!Dec over ShapeOf(schema) must consume the postcard bytes exactly.",
+         "TLA+ conformance relation; TLC validates recorded (schema, call tree, bytes) events"),
+ "C15": ("5.C15", "EncSchema/DecMeta (schema-of-schema wire format with the published variant order) model-checked mutually inverse on all trees of depth<=1..2; every such tree and random deep trees are built at run time in borrowed form: borrowed bytes, owned bytes, conversion, decoding and equality validated by TLC.",
+         "TLA+ schema wire format + TLC; enumerated trees replayed as vectors; random-tree traces validated"),
+ "C16": ("5.C16", "KeyStream (documented tag/name stream) and FNV-1a-64 on byte limbs in TLA+; MC: type-name insensitivity, single-node mutation sensitivity, no collision in the enumerated set. Real code: const hasher (through the cfg-guarded hook), owned hasher and Key::for_path::<T> compared with the spec key on enumerated trees, random trees, every bounded single-node mutant and path mutants.",
+         "TLA+ key stream + FNV model; TLC validates both hashers on trees and their mutants"),
+ "C19": ("5.C19", "Subtrees/DirectNames in TLA+ (laws model-checked); for every tree of the C15 population all_used_types (as a set) must equal Subtrees(tree), rendering must terminate, Display = to_pseudocode, and a top-level struct/enum must mention its name and its direct field/variant names; panics are events no action matches.",
+         "TLA+ subtree/name functions; TLC validates recorded inspection results"),
 }
 PENDING = "check under construction in this session (see DESIGN.md section 8 for the order of construction)"
 m = {
